@@ -99,6 +99,9 @@ def build(c, fresh=False):
     k = key(c)
     if not fresh and k in _cache:
         return _cache[k]
+    for op in c.get("pre") or ():
+        if op[0] == "construct":  # an unrelated instance built (and dropped) before the one under test
+            MarkdownIt(op[1], op[2])
     md = MarkdownIt(c["preset"], c.get("opts") or None)
     if c.get("enable"):
         md.enable(c["enable"])
